@@ -84,7 +84,9 @@ def evaluate_z3_expression(
         logger = logging.getLogger("Z3 evaluation")
         logger.debug("Evaluation of expression %s not implemented.", expr)
         return Failure(
-            NotImplementedError(f"Evaluation of expression {expr} not implemented.")
+            NotImplementedError(
+                f"Evaluation of expression {expr.sexpr()} not implemented."
+            )
         )
 
     return (
